@@ -670,12 +670,51 @@ const FRAGMENTS: &[&[u8]] = &[
     b"\x80", b"\xce\xbb", b"1a", b"12ab", b"1+", b"#!eof", b"#;", b"#|", b"|#",
 ];
 
+/// A numeric literal built around the boundaries of the scanner's arithmetic:
+/// digit counts around 19/20 (u64), exponents around the f64 range and around
+/// i32::MAX, fractions long enough to saturate the significand.
+pub fn gen_boundary_number(rng: &mut Rng, out: &mut Vec<u8>) {
+    match rng.below(6) {
+        0 => out.push(b'-'),
+        1 => out.push(b'+'),
+        2 => out.extend_from_slice(*rng.pick(&[&b"#x"[..], b"#b", b"#o", b"#d", b"#x-", b"#d+"])),
+        _ => {}
+    }
+    let nd = *rng.pick(&[1usize, 2, 18, 19, 20, 21, 25, 40, 310, 330]);
+    let lead = *rng.pick(&[b'0', b'1', b'9', b'1', b'9']);
+    for i in 0..nd {
+        out.push(if i == 0 { lead } else { b'0' + rng.below(10) as u8 });
+    }
+    if rng.chance(1, 2) {
+        out.push(b'.');
+        let nf = *rng.pick(&[0usize, 1, 2, 17, 19, 20, 25, 330]);
+        for _ in 0..nf {
+            out.push(b'0' + rng.below(10) as u8);
+        }
+    }
+    if rng.chance(2, 3) {
+        out.push(*rng.pick(b"eE"));
+        match rng.below(3) {
+            0 => out.push(b'-'),
+            1 => out.push(b'+'),
+            _ => {}
+        }
+        let e = *rng.pick(&[
+            "0", "1", "22", "23", "307", "308", "309", "323", "324", "325", "400", "2147483646", "2147483647", "2147483648", "4294967295", "4294967296",
+            "9999999999", "99999999999999999999", "",
+        ]);
+        out.extend_from_slice(e.as_bytes());
+    }
+}
+
 pub fn gen_soup(rng: &mut Rng, max_frags: usize) -> Vec<u8> {
     let n = 1 + rng.small(max_frags);
     let mut out = Vec::new();
     for _ in 0..n {
         if rng.chance(1, 12) {
             out.push(rng.byte());
+        } else if rng.chance(1, 10) {
+            gen_boundary_number(rng, &mut out);
         } else {
             out.extend_from_slice(*rng.pick(FRAGMENTS));
         }
@@ -739,9 +778,10 @@ pub enum PathShape {
 }
 
 pub fn closer_for(opener: &str) -> &'static str {
-    match opener {
-        "(" | "#(" | "(a . " | "(a " => ")",
-        "[" => "]",
+    match opener.as_bytes().first() {
+        Some(b'(') => ")",
+        Some(b'[') => "]",
+        Some(b'#') if opener.starts_with("#(") => ")",
         _ => "",
     }
 }
@@ -779,7 +819,12 @@ pub fn build_path(shape: &PathShape) -> Vec<u8> {
     out
 }
 
-pub const OPENERS: &[&str] = &["(", "[", "#(", "'", "`", ",", ",@", "(a . ", "(a "];
+/// Openers of every nesting construct; the longer ones put a completed sibling
+/// (or a dotted head) in front of the next level, so that a level is entered
+/// right after another one was left.
+pub const OPENERS: &[&str] = &[
+    "(", "[", "#(", "'", "`", ",", ",@", "(a . ", "(a ", "#(#() ", "(() ", "[[] ", "(#() ", "#(() ", "('a ", "(\"s\" . ",
+];
 
 // ---------------------------------------------------------------------------
 // Light lexical classifier (reach probes only, never an oracle)
